@@ -109,10 +109,10 @@ def py_norm(fs):
     Model.C07Decl.norm; the judge re-computes it in Coq and rejects the case if the two differ)"""
     out = []
     for nm, t, d in fs:
+        if "v" in d and nm.startswith("_"):   # private AND has a default in the signature: not offered
+            continue
         if "nd" in d and is_opt(t):
             d = {"v": None}
-        if "v" in d and nm.startswith("_"):
-            continue
         if "v" in d and d["v"] is None and not is_opt(t):
             t = ["opt", t]
         out.append([nm, t, d])
